@@ -279,6 +279,9 @@ def _run_integration(job):
         old = rz.torch
         rz.torch = _torch_stub()
         try:
+            if job.get("history"):
+                # the same maze object was rasterized before with the opposite options (result discarded)
+                rz.process_maze_rasterized_input_target(m, remove_isolated_cells=not ric, extend_pixels=not ext, endpoints_as_open=not eao)
             res = rz.process_maze_rasterized_input_target(m, remove_isolated_cells=ric, extend_pixels=ext, endpoints_as_open=eao)
         finally:
             rz.torch = old
@@ -299,10 +302,12 @@ def _replay_integration(job, inputs, notes):
     cl = conn_from_cex(inputs, r, c)
     sol = [tuple(p) for p in notes["sol"]]
     m = SolvedMaze(connection_list=cl, solution=np.array(sol))
+    if job.get("history"):
+        rz.process_maze_rasterized_input_target(m, remove_isolated_cells=not ric, extend_pixels=not ext, endpoints_as_open=not eao)
     res = rz.process_maze_rasterized_input_target(m, remove_isolated_cells=ric, extend_pixels=ext, endpoints_as_open=eao).numpy()
     pic = _concrete_expected(cl, "SolvedMaze", sol[0], sol[-1], sol, True, True)
     inp, tgt = _concrete_oracle(pic, ric, ext, eao)
-    tag = f"options (remove_isolated={ric}, extend={ext}, endpoints_as_open={eao}) solution={sol} connection_list={cl.astype(int).tolist()}"
+    tag = ("after the same maze object was rasterized with the opposite options; " if job.get("history") else "") + f"options (remove_isolated={ric}, extend={ext}, endpoints_as_open={eao}) solution={sol} connection_list={cl.astype(int).tolist()}"
     if res.shape[1:] != inp.shape or not np.array_equal(res[0], inp):
         return f"raster-input-wrong | {tag}"
     if not np.array_equal(res[1], tgt):
@@ -395,6 +400,8 @@ def jobs(tier, seed):
             for L in range(1, 4 if q else 5):
                 for o in (opts if not q else [(True, True, False), (True, False, True), (False, False, False)]):
                     out.append(dict(h="integration", r=r, c=c, s=list(s), L=L, opts=list(o), max_seconds=3300))
+                    if (r, c) == (2, 2) and (not q or L == 2):
+                        out.append(dict(h="integration", r=r, c=c, s=list(s), L=L, opts=list(o), history=True, max_seconds=3300))
     for o in (opts if not q else [(True, True, False), (False, True, True)]):
         for n_idx in (None, 1, 2, 3):
             out.append(dict(h="batch", n_idx=n_idx, opts=list(o)))
